@@ -58,5 +58,5 @@ def main(tier):
         'is raised exactly beyond capacity: PROVED for all numbers 1..20000 (symbolic pairs a<b), default alphabet, both justifications. '
         '(d) every constructed geometry has distinct 5-character block names whose column and layer parts give back the column and layer: PROVED for geometries built by the real '
         'mulgrid.rectangular (run by the executor, symbolic spacings and origin) of 3x2x3 and 12x1x2 blocks under the 4 conventions x 3 atmosphere types x right/lower and left/upper-case names (48 programs); '
-        'sizes crossing the capacity limits (99 layers, 99 / 999 columns, letter name spaces) are BOUNDED (constructor enumeration).')
+        'at the capacity limits (48 / 49 / 99 / 100 columns, 99 / 100 layers, 27 letter layers, 9x10 and 10x10 columns) the real constructor completes with distinct names exactly when nodes, columns and layers fit the name space of the convention and raises NamingConventionError otherwise: PROVED for 9 instances; the enumeration of all sizes is BOUNDED.')
     return chk.finish()
